@@ -7,6 +7,35 @@ from ..errflow import ret_sources, failure_edges, consistent_reach
 from ..k7 import run_k7
 
 
+def rule_entry_identity(chk, prog):
+    """K2-identity: the hard link filter takes two entries for links to one object when their (device, inode) identities are
+    equal.  For entries that come out of an image that identity is the position of the inode in the image (the inode
+    reference: the entry's ent_ref, the super block's root_inode_ref), which two different objects cannot share.  A number
+    that is stored *in* the inode is whatever the image says: two files with the same inode_number would be written as
+    hard links of each other, the second one's contents lost."""
+    n = 0
+    for f in prog.functions():
+        if f.decl or not (f.unit.src.startswith("lib/sqfs/src/dir_iterator.c") or f.unit.src.startswith("bin/sqfs2tar/")):
+            continue
+        for i in f.build().insts():
+            if i.op != "store":
+                continue
+            q = strip_casts(i.ops[1])
+            if not (q.is_inst and q.op == "getelementptr" and q.field() and "sqfs_dir_entry_t" in q.field()[0] and q.field()[1] == "inode"):
+                continue
+            n += 1
+            chk.analysed(f)
+            flds = {nm for (_s, nm) in fields_in_slice(i.ops[0])}
+            inst = "%s:entry.inode@%d" % (f.name, i.line)
+            if flds & {"ent_ref", "root_inode_ref", "inode_ref"} and "inode_number" not in flds:
+                chk.ok("K2-identity", inst, i, "the identity of an image entry is its inode reference")
+            else:
+                chk.violation("K2-identity", inst, i, "the identity handed to the hard link filter is taken from %s, not from the inode "
+                              "reference: two different inodes of a (crafted) image can carry the same value and are then "
+                              "written to the archive as hard links of each other" % (sorted(flds) or "something else"))
+    return n
+
+
 def rule_writer_wellformed(chk, prog):
     """C04-c: write_tar_header: the checksum is computed after every other store into the header;
     every regular file's data is followed by the padding call; sqfs2tar terminates and flushes before success"""
@@ -715,6 +744,8 @@ def run(chk):
     rule_ext_order(chk, load_program("all"))
     rule_list_order(chk, load_program("all"))
     chk.floor("K11-listorder", 1)
+    rule_entry_identity(chk, load_program("sqfs2tar"))
+    chk.floor("K2-identity", 2)
     from .c16 import rule_type_twins
     rule_type_twins(chk, load_program("sqfs2tar"))
     chk.floor("K12-twins", 3)
